@@ -142,3 +142,59 @@ def set_default_constants(**inp):
         if not all(indom(k, out[k]) for k in CONST_DOMAINS) or not all(rel(out, r) for r in CONST_RELATIONS):
             problems.append("completed constants violate a documented domain/relation")
     return {"reproduced": bool(problems), "observed": {"supplied": kw, "raised": raised, "completed": out}, "problems": problems}
+
+
+# ---- Problem.__call__ -------------------------------------------------------------------------------------
+def problem_call(**inp):
+    """Rebuild a filter/history state, run the real Problem.__call__ with callees returning the model's values, and
+    check ALIGN / BOUND / COVER and the history natively."""
+    from cobyqa.problem import Problem
+    if not isinstance(inp.get("F"), list) or not isinstance(inp.get("M"), list):
+        return {"reproduced": False, "reason": "model too large to concretise"}
+    Fl = [F(v) for v in inp.get("F", [])]
+    Ml = [F(v) for v in inp.get("M", [])]
+    if isinstance(inp.get("H"), list):
+        H = [(F(a), F(b)) for a, b in inp["H"]]
+    else:
+        # the model's history is long: keep the part that matters (the retained entries and the uncovered point p)
+        H = list(zip(Fl, Ml)) + [(F(inp["cover_p_f"]), F(inp["cover_p_m"]))]
+    fnew, mnew = F(inp["fun_raw"]), F(inp["maxcv_raw"])
+    fs = int(inp["filter_size"])
+    pb = Problem.__new__(Problem)
+    pb._fun_filter, pb._maxcv_filter = list(Fl), list(Ml)
+    pb._x_filter = [np.array([float(i)]) for i in (inp.get("X") or range(len(Fl)))]
+    pb._filter_size = fs
+    pb._store_history = bool(inp.get("store_history", False))
+    pb._history_size = int(inp.get("history_size", 1))
+    FH = [F(v) for v in (inp.get("FH") or [])] if isinstance(inp.get("FH"), list) else []
+    MH = [F(v) for v in (inp.get("MH") or [])] if isinstance(inp.get("MH"), list) else []
+    pb._fun_history, pb._maxcv_history, pb._x_history = list(FH), list(MH), [None] * len(FH)
+    pb._callback = None
+    pb._feasibility_tol = 1e-8
+    pb.build_x = lambda x: x
+    pb._obj = lambda x: fnew
+    pb._nonlinear = lambda x: (np.array([]), np.array([]))
+    pb.maxcv = lambda x, a=None, b=None: mnew
+    pb(np.array([float(len(H))]), 0.0)
+    H1 = H + [(fnew, mnew)]
+    problems = []
+    Fn, Mn = pb._fun_filter, pb._maxcv_filter
+    if not (len(Fn) == len(Mn) == len(pb._x_filter) and len(Fn) >= 1):
+        problems.append("filter lists not aligned / empty")
+    if len(Fn) > fs:
+        problems.append("filter longer than filter_size")
+    if fs > len(H1) or not isinstance(inp.get("H"), list):
+        for (fp, mp) in H1:
+            if fp == fp and mp == mp:
+                if not any(fq == fq and mq == mq and fq <= fp and mq <= mp for fq, mq in zip(Fn, Mn)):
+                    problems.append(f"fully defined evaluated point (f={fp}, maxcv={mp}) is not covered by the filter {list(zip(Fn, Mn))}")
+                    break
+    if pb._store_history:
+        k = min(len(H1), pb._history_size)
+        exp = H1[-k:]
+        got = list(zip(pb._fun_history, pb._maxcv_history))
+        same = len(got) == len(exp) and all((a == c or (a != a and c != c)) and (b == d or (b != b and d != d)) for (a, b), (c, d) in zip(got, exp))
+        if len(FH) == min(len(H), pb._history_size) and not same:
+            problems.append(f"history {got} is not the last {k} evaluations {exp}")
+    return {"reproduced": bool(problems), "problems": problems,
+            "observed": {"filter_before": list(zip(Fl, Ml)), "new": (fnew, mnew), "filter_after": list(zip(Fn, Mn))}}
